@@ -11,6 +11,7 @@ import (
 	"io"
 	"os"
 	"path/filepath"
+	"reflect"
 	"strings"
 	"testing"
 	"time"
@@ -90,6 +91,7 @@ func lsRunRS(t testing.TB, tr *tracer, sc lsScenario, variant int, alloc bool) {
 	var want []string
 	wantSize := map[string]int64{}
 	wantMode := map[string]os.FileMode{}
+	wantExt := map[string][]StatExtended{}
 	wantOwner := map[string][2]uint32{} // the owner each entry reports (FileInfoUidGid, Sys().(*syscall.Stat_t), or none)
 	for i := 0; i < sc.N; i++ {
 		name := lsName(i, variant)
@@ -114,6 +116,13 @@ func lsRunRS(t testing.TB, tr *tracer, sc lsScenario, variant int, alloc bool) {
 		wantMode[name] = md
 		n := &vnode{name: name, data: make([]byte, 1000+i), mode: md, mtime: fixedTime.Add(time.Duration(i) * time.Second),
 			uid: uint32(1000 + i), gid: uint32(5000 + i), own: (i + variant) % 4}
+		switch (i + variant) % 5 { // extended attributes travel with the entry as well (none / one pair / two pairs)
+		case 1:
+			n.ext = []StatExtended{{ExtType: fmt.Sprintf("k%d@example.com", i), ExtData: fmt.Sprintf("v%d", i)}}
+		case 3:
+			n.ext = []StatExtended{{ExtType: "a@example.com", ExtData: fmt.Sprintf("first-%d", i)}, {ExtType: "b@example.com", ExtData: ""}}
+		}
+		wantExt[name] = n.ext
 		ents = append(ents, n.asInfo())
 		if _, _, has := n.wireOwner(); has {
 			wantOwner[name] = [2]uint32{n.uid, n.gid}
@@ -168,7 +177,11 @@ func lsRunRS(t testing.TB, tr *tracer, sc lsScenario, variant int, alloc bool) {
 			attrsok = false
 		}
 		if ow, ok := wantOwner[fi.Name()]; ok {
-			if st, isStat := fi.Sys().(*FileStat); !isStat || st.UID != ow[0] || st.GID != ow[1] {
+			st, isStat := fi.Sys().(*FileStat)
+			if !isStat || st.UID != ow[0] || st.GID != ow[1] {
+				attrsok = false
+			}
+			if we := wantExt[fi.Name()]; isStat && (len(st.Extended) != len(we) || (len(we) > 0 && !reflect.DeepEqual(st.Extended, we))) {
 				attrsok = false
 			}
 		}
